@@ -16,5 +16,9 @@ export async function resolve(specifier, context, nextResolve) {
       return { url: STUB, shortCircuit: true, format: 'module' }
     }
   }
+  if (specifier.endsWith('/src/tmpl/proc_gen_wrapper.ts')) {
+    const r = await nextResolve(specifier, context)
+    return { ...r, format: 'module-typescript', shortCircuit: true }
+  }
   return nextResolve(specifier, context)
 }
